@@ -52,6 +52,8 @@ strengthened.update({
  "C06-G":"search request streams: a far time limit among the limits; roots final by rule with a single legal reply",
  "C06-H":"search request streams: previous search on ANOTHER root, then stop closed before the start / tiny budgets",
  "C19-H":"c19env: tuner-side evaluation on a coefficient object with the tuner's life cycle (zero value, Eval, SetVector, nudge and restore through TunedParams)",
+ "C12-H":"C12 cold-start step: the first lookups of a fresh process come from 12 goroutines started 0/20/150/400 us apart",
+ "C05-G":"c05/c01 castling family: the other king next to the mover's castling path (g2 h2 / a2 b2 c2 and mirrored)",
  "C20-G":"new stream c20_huge (generated files of 9..40 MiB, a line starting on every 1 MiB boundary)",
 })
 
